@@ -40,6 +40,9 @@ pub struct Reference {
     pub image_pairs: u64,
     pub max_lattice_index_with_energy: i64,
     pub beyond_third_shell: f64,
+    /// the same contributions with their signs: `energy - beyond_signed` is the sum over three
+    /// shells, the one specific wrong value the open finding stands for
+    pub beyond_signed: f64,
     pub degenerate: bool,
     pub uncut: bool,
     /// smallest particle separation in units of the pair's sigma
@@ -66,7 +69,7 @@ pub fn reference(atoms: &[LjAtom], pl: &[Affine], lat: &Lattice, uncut_reach_sig
     let alike = atoms.iter().all(|a| a.sigma == atoms[0].sigma && a.eps == atoms[0].eps && a.cutoff == atoms[0].cutoff);
     let placed: Vec<Vec<[f64; 2]>> = pl.iter().map(|t| atoms.iter().map(|a| t.apply(a.p)).collect()).collect();
     let (va, vb) = (lat.va(), lat.vb());
-    let mut r = Reference { energy: 0., energy_law: if alike { Some(0.) } else { None }, mag: 0., attractive: 0., in_cell_pairs: 0, image_pairs: 0, max_lattice_index_with_energy: 0, beyond_third_shell: 0., degenerate: false, uncut, min_reduced_distance: f64::INFINITY, conditioning: 1. };
+    let mut r = Reference { energy: 0., energy_law: if alike { Some(0.) } else { None }, mag: 0., attractive: 0., in_cell_pairs: 0, image_pairs: 0, max_lattice_index_with_energy: 0, beyond_third_shell: 0., beyond_signed: 0., degenerate: false, uncut, min_reduced_distance: f64::INFINITY, conditioning: 1. };
     // ordered pairs (i, (j,t)) with weight 1/2: i.e. every unordered pair once
     for i in 0..n {
         for j in 0..n {
@@ -128,6 +131,7 @@ pub fn reference(atoms: &[LjAtom], pl: &[Affine], lat: &Lattice, uncut_reach_sig
                         r.max_lattice_index_with_energy = r.max_lattice_index_with_energy.max(idx);
                         if idx > 3 {
                             r.beyond_third_shell += 0.5 * pair.abs();
+                            r.beyond_signed += 0.5 * pair;
                         }
                     }
                 }
@@ -143,6 +147,7 @@ pub fn reference(atoms: &[LjAtom], pl: &[Affine], lat: &Lattice, uncut_reach_sig
     r.mag /= nf;
     r.attractive /= nf;
     r.beyond_third_shell /= nf;
+    r.beyond_signed /= nf;
     if let Some(el) = r.energy_law.as_mut() {
         *el /= nf;
     }
@@ -164,6 +169,13 @@ fn wrap(x: f64) -> f64 {
         v -= 1.;
     }
     v
+}
+
+/// the open finding is one specific wrong value: the sum over three shells of images.  A score
+/// is attributed to it only if it IS that value; anything else in the same region is another
+/// defect.
+fn is_three_shell_sum(score: f64, r: &Reference) -> bool {
+    r.beyond_third_shell > 0.5 * tolerance(r) && (score + (r.energy - r.beyond_signed)).abs() <= tolerance(r)
 }
 
 /// tolerance for comparing a library score with a reference
@@ -223,7 +235,7 @@ pub fn judge_absolute(state: &PotentialState<LJShape2>, c: &Case, st: &mut Stats
     let tol = tolerance(&r);
     // 1. absolute: score = - lattice energy per molecule
     if !((s + r.energy).abs() <= tol) {
-        let what = if r.beyond_third_shell > 0.5 * tol {
+        let what = if is_three_shell_sum(s, &r) {
             // every image inside the cutoff must be counted, however far in cell indices
             "images-beyond-third-shell-inside-cutoff"
         } else {
@@ -285,7 +297,7 @@ fn check_variants(c: &Case, s: f64, r: &Reference, lat: &Lattice, atoms: &[LjAto
                         let a2 = lj_atoms(&s2.shape);
                         let pl2: Vec<Affine> = s2.cartesian_positions().map(|t| to_affine(&t)).collect();
                         let r2 = reference(&a2, &pl2, &lattice_of(&s2.cell), 12.);
-                        let what = if r1.beyond_third_shell > 0.5 * tolerance(&r1) || r2.beyond_third_shell > 0.5 * tolerance(&r2) {
+                        let what = if (is_three_shell_sum(a, &r1) || is_three_shell_sum(b, &r2)) && (a + r1.energy - r1.beyond_signed).abs() <= tolerance(&r1) && (b + r2.energy - r2.beyond_signed).abs() <= tolerance(&r2) {
                             "images-beyond-third-shell-inside-cutoff"
                         } else {
                             "score-jumps-when-a-copy-crosses-a-cell-face"
@@ -305,7 +317,7 @@ fn check_variants(c: &Case, s: f64, r: &Reference, lat: &Lattice, atoms: &[LjAto
                     let a2 = lj_atoms(&s2.shape);
                     let pl2: Vec<Affine> = s2.cartesian_positions().map(|t| to_affine(&t)).collect();
                     let r2 = reference(&a2, &pl2, &lattice_of(&s2.cell), 12.);
-                    let what = if r.beyond_third_shell > 0.5 * tol || r2.beyond_third_shell > 0.5 * tolerance(&r2) {
+                    let what = if (is_three_shell_sum(s, r) || is_three_shell_sum(b, &r2)) && (s + r.energy - r.beyond_signed).abs() <= tol && (b + r2.energy - r2.beyond_signed).abs() <= tolerance(&r2) {
                         "images-beyond-third-shell-inside-cutoff"
                     } else {
                         "same-crystal-different-score"
@@ -397,7 +409,7 @@ pub fn check_multi_site(seed: u64, st: &mut Stats) {
     st.nontrivial(hash64(&[334, seed]));
     st.count("multi_site_states");
     let tol = tolerance(&r);
-    if !((s + r.energy).abs() <= tol) && !(r.beyond_third_shell > 0.5 * tol) {
+    if !((s + r.energy).abs() <= tol) && !is_three_shell_sum(s, &r) {
         st.violation(Violation {
             kind: "c03.multisite".into(),
             signature: "PotentialState::score:not-the-lattice-energy-per-molecule:several-sites".into(),
